@@ -346,6 +346,38 @@ def check_init(ctx):
     txt = [k(util.stmt_key(s)) for s in ast.walk(f) if isinstance(s, ast.stmt)]
     ok = any('np.nan' in t and t.startswith('self.params_values=np.concatenate(') for t in txt)
     ctx.ob('R3.5-initialisation-check', '_add_param', ok, ctx.loc('types', f), 'a new parameter starts without a value (NaN)', '')
+    # ... and keeps none until the caller gives one: every value stored into params_values by a method of the model classes comes from
+    # an argument of that method (set_parameter / set_params / a numeric entry of a parameter dictionary), never from a constant
+    problems = []
+    n = 0
+    for cname in ('Model', 'LineageModel'):
+        ci = ctx.prog.classes.get(cname)
+        if ci is None:
+            continue
+        for mname, g in ci.methods.items():
+            if mname in ('__setstate__', '__init__', '_add_param') or not hasattr(g, 'args'):
+                continue
+            argn = {a_.arg for a_ in g.args.args[1:]} | ({g.args.vararg.arg} if g.args.vararg else set()) | ({g.args.kwarg.arg} if g.args.kwarg else set())
+            sd_ = {n_: v_ for n_, v_ in util.single_defs(g).items() if v_ is not None}
+            vals = []
+            for n_ in ast.walk(g):
+                if isinstance(n_, (ast.Assign, ast.AugAssign)):
+                    for t_ in (n_.targets if isinstance(n_, ast.Assign) else [n_.target]):
+                        if isinstance(t_, ast.Subscript) and src(t_.value) == 'self.params_values':
+                            vals.append((n_, n_.value))
+                elif isinstance(n_, ast.Call) and isinstance(n_.func, ast.Attribute) and src(n_.func.value) == 'self' and n_.func.attr in ('set_parameter', 'create_parameter') \
+                        and len(n_.args) == 2:
+                    vals.append((n_, n_.args[1]))
+            for node_, v_ in vals:
+                n += 1
+                v2 = util.inline(v_, sd_)
+                reads_arg = any(isinstance(x_, ast.Name) and x_.id in argn for x_ in ast.walk(v2))
+                # loop variables over an argument count as the argument (`for p in param_dict: ... param_dict[p]`)
+                if not reads_arg:
+                    problems.append('%s.%s: `%s` (%s) stores a value that does not come from the caller' % (cname, mname, util.stmt_key(node_)[:70] if isinstance(node_, ast.stmt) else src(node_)[:70], ctx.loc(ci.module, node_)))
+    ctx.ob('R3.5-initialisation-check', 'values-from-caller', not problems and n >= 2, ctx.loc('types', f),
+           'a parameter has a value only once the caller has given it one: no method of the model invents a value for a parameter that has none',
+           '; '.join(problems[:2]))
 
 
 def check(ctx):
